@@ -158,6 +158,24 @@ OneOccurrencePerKey ==
        IN k.kind \in {"leaf", "tree"} =>
              IdCount(R, k.id) = IdCount(stack[1], k.id) - 1
 
+(* ddmin applies a GROUP of simplifications of one mutator at once          *)
+(* (strategy_ddmin._simp merges their key maps).  For identity keys that     *)
+(* designate pairwise non-nested nodes and replacements that are new         *)
+(* (deleted, fresh leaf, fresh tree) the group is the same as its members    *)
+(* applied one after the other, in either order: this is what makes "one     *)
+(* group of simplifications" of C05's chain a well-defined step.             *)
+Restrict(m, S) == [x \in S |-> m[x]]
+GroupIsSequential ==
+    phase = "simp" /\ DOMAIN simp.sts = {} /\ simp.decls = <<>>
+       /\ DistinctIds(stack[1]) /\ Cardinality(DOMAIN simp.ids) = 2
+       /\ (\A i \in DOMAIN simp.ids : simp.ids[i].kind \in {"del", "leaf", "tree"}) =>
+       LET m == IdMap(simp)
+           a == CHOOSE x \in DOMAIN m : TRUE
+           b == CHOOSE x \in DOMAIN m : x # a
+           one(f, k) == SubstConsuming(f, Restrict(m, {k}), <<>>)
+       IN /\ Tokens(one(one(stack[1], a), b)) = Tokens(R)
+          /\ Tokens(one(one(stack[1], b), a)) = Tokens(R)
+
 (* untouched top-level expressions are the very same nodes *)
 UntouchedKept ==
     phase = "simp" /\ simp.decls = <<>> /\ DOMAIN simp.sts = {} =>
